@@ -955,4 +955,221 @@ def dRunDirtyFrom (s : DSt) : List DInv → List DVal
   | [] => []
   | v :: rest => (dRunCodeDirty s v).2 :: dRunDirtyFrom (dRunCodeDirty s v).1 rest
 
+/-! ## Objects the HOST keeps across invocations (round 7)
+
+Objects with identity survive an invocation on the host's side: a function object or a closure
+the host obtained with `vm.Get` (or was handed as a callback by the script through a host
+builtin) in invocation i and calls with `vm.Call` - or from a host builtin of a running script -
+in invocation j > i; a list it obtained in one invocation and reads in a later one.  In between
+the VM runs `RunCode` of the same, of another or of a grown code object: `resetForNewCode`
+replaces `vm.loadedCode`, and with it the `Globals` array of the load.  As the code is: a call
+looks the function's code up in the CURRENT `vm.loadedCode` (`activateFunction` -> `loadCode`),
+so a kept function works on the globals of the load that is current when it is called; when the
+root code object of the function is not loaded, `loadChildCode` dereferences a nil root (a
+recovered Go panic - an error that depends on the loaded code only).
+
+Script family (one per code object; `p`, `fails` and the target of `fire` are read from the host):
+`x := param(); items := [param()]; func bump(n) {x = x + n; items.append(n); return [0, x]};
+func peek(n) {return [0, x]}; func mk(k) {return func(n) {x = x + n; return [k, x]}};
+cl := mk(param()); reg(bump); x = x + 1; fire(); if fail() {1 + "s"}; x = x + 10` followed by one
+`x = x + 1000` per snippet the host has compiled into the code object since. -/
+
+/-- one `Globals` array: made by `loadRootCode` when a RunCode loads the root code object `code`;
+    `k` is the value the closure in slot `cl` captured. -/
+structure KG where
+  code : Nat
+  x : Int
+  items : List Int
+  k : Int
+deriving DecidableEq, Repr
+
+/-- the functions of the script: `bump`, `peek`, and the closure `cl` with its captured value -/
+inductive KFn where
+  | bump
+  | peek
+  | clo (k : Int)
+deriving DecidableEq, Repr
+
+/-- an object the host keeps: a function/closure of (a load of) code object `code`; the list
+    object in slot `items` of the array of load number `gen` -/
+inductive KObj where
+  | fn (code : Nat) (f : KFn)
+  | list (gen : Nat)
+deriving DecidableEq, Repr
+
+/-- what the host fetches by name with `vm.Get` -/
+inductive KWhat where
+  | bump | peek | cl | items
+deriving DecidableEq, Repr
+
+inductive KRes where
+  | ok (k : Int) (x : Int)   -- result `[k, x]` of a function call
+  | ranOk | ranErr | ranPanic -- how a RunCode ended
+  | notLoaded                -- the function's root code object is not loaded (recovered nil dereference)
+  | noCode                   -- vm.Get: no active code
+  | kept                     -- vm.Get succeeded, the host keeps the object
+  | badTarget                -- not a function / no such kept object (never generated)
+  | listIs (xs : List Int)
+deriving DecidableEq, Repr
+
+/-- `old`: the arrays of earlier loads, oldest first - unreachable from the VM, reachable from the
+    objects the host kept; `cur`: the array of the loaded root code (its load number is
+    `old.length`); `kept`: the host's table. -/
+structure KSt where
+  old : List KG := []
+  cur : Option KG := none
+  kept : List KObj := []
+deriving DecidableEq, Repr
+
+/-- the body of a function, executed on one `Globals` array -/
+def kApply (f : KFn) (n : Int) (g : KG) : KG × KRes :=
+  match f with
+  | .bump => ({ g with x := g.x + n, items := g.items ++ [n] }, .ok 0 (g.x + n))
+  | .peek => (g, .ok 0 g.x)
+  | .clo k => ({ g with x := g.x + n }, .ok k (g.x + n))
+
+/-- a call of the function `f` of code object `c` as the code is: `loadCode` resolves the
+    function's code in the CURRENT table of loaded code -/
+def kCallFn (s : KSt) (c : Nat) (f : KFn) (n : Int) : KSt × KRes :=
+  match s.cur with
+  | some g => if g.code = c then ({ s with cur := some (kApply f n g).1 }, (kApply f n g).2) else (s, .notLoaded)
+  | none => (s, .notLoaded)
+
+def kCallObj (s : KSt) (o : Option KObj) (n : Int) : KSt × KRes :=
+  match o with
+  | some (.fn c f) => kCallFn s c f n
+  | _ => (s, .badTarget)
+
+/-- the object `vm.Get` returns for a name -/
+def kFetch (s : KSt) (w : KWhat) : Option KObj :=
+  match s.cur with
+  | none => none
+  | some g => some (match w with
+    | .bump => .fn g.code .bump
+    | .peek => .fn g.code .peek
+    | .cl => .fn g.code (.clo g.k)
+    | .items => .list s.old.length)
+
+/-- the contents of the list object of load `gen` -/
+def kReadList (s : KSt) (gen : Nat) : Option (List Int) :=
+  if gen = s.old.length then s.cur.map (·.items) else s.old[gen]?.map (·.items)
+
+inductive KInv where
+  /-- `RunCode` of code object `code` (into which the host has compiled `snips` further snippets);
+      `fire = some (i, n)`: the host builtin `fire` calls the kept object `i` with `n` -/
+  | runCode (code : Nat) (p : Int) (snips : Nat) (fire : Option (Nat × Int)) (fails : Bool)
+  | keep (w : KWhat)
+  | call (i : Nat) (n : Int)
+  | callFresh (w : KWhat) (n : Int)
+  | read (i : Nat)
+deriving DecidableEq, Repr
+
+/-- reset + `loadRootCode`: a new array; the definitions, `reg(bump)`, `x = x + 1` -/
+def kLoad (s : KSt) (c : Nat) (p : Int) : KSt :=
+  { old := s.old ++ s.cur.toList, cur := some { code := c, x := p + 1, items := [p], k := p },
+    kept := s.kept ++ [.fn c .bump] }
+
+/-- the rest of the script after `fire()`: a fired callback whose code is not loaded is a Go panic
+    that ends the run; `if fail() {1 + "s"}`; `x = x + 10` and the grown snippets -/
+def kFinish (fails : Bool) (snips : Nat) (r : KSt × KRes) : KSt × KRes :=
+  if r.2 = .notLoaded then (r.1, .ranPanic)
+  else if fails then (r.1, .ranErr)
+  else ({ r.1 with cur := r.1.cur.map (fun g => { g with x := g.x + 10 + 1000 * snips }) }, .ranOk)
+
+def kRunCode (s : KSt) (c : Nat) (p : Int) (snips : Nat) (fire : Option (Nat × Int)) (fails : Bool) : KSt × KRes :=
+  let s1 := kLoad s c p
+  let r := match fire with
+    | some (i, n) => kCallObj s1 s1.kept[i]? n
+    | none => (s1, .ok 0 0)
+  kFinish fails snips r
+
+def kStep (s : KSt) : KInv → KSt × KRes
+  | .runCode c p sn fr fl => kRunCode s c p sn fr fl
+  | .keep w => match kFetch s w with
+    | some o => ({ s with kept := s.kept ++ [o] }, .kept)
+    | none => (s, .noCode)
+  | .call i n => kCallObj s s.kept[i]? n
+  | .callFresh w n => match kFetch s w with
+    | some o => kCallObj s (some o) n
+    | none => (s, .noCode)
+  | .read i => match s.kept[i]? with
+    | some (.list g) => (s, match kReadList s g with | some xs => .listIs xs | none => .badTarget)
+    | _ => (s, .badTarget)
+
+def kAfterFrom (s : KSt) (h : List KInv) : KSt := h.foldl (fun s v => (kStep s v).1) s
+/-- the machine after the history `h` on a new VM -/
+def kAfter (h : List KInv) : KSt := kAfterFrom {} h
+
+def kRunFrom (s : KSt) : List KInv → List KRes
+  | [] => []
+  | v :: rest => (kStep s v).2 :: kRunFrom (kStep s v).1 rest
+
+/-- what a later invocation can depend on, by the property: the array of the CURRENT load and
+    which functions the host keeps - not the arrays of earlier loads -/
+def KObj.callee : KObj → Option (Nat × KFn)
+  | .fn c f => some (c, f)
+  | .list _ => none
+
+def kView (s : KSt) : Option KG × List (Option (Nat × KFn)) := (s.cur, s.kept.map KObj.callee)
+
+/-- **Spec** of one invocation: a call of a kept function of the loaded code = fetching the
+    function again (`vm.Get`) and calling that; a RunCode = the same RunCode on a VM that has
+    forgotten every earlier load (the kept functions of other code objects stay foreign) -/
+def kSpecRes (s : KSt) : KInv → KRes
+  | .call i n => match s.kept[i]?, s.cur with
+    | some (.fn c f), some g =>
+      if g.code = c then
+        (kStep s (.callFresh (match f with | .bump => .bump | .peek => .peek | .clo _ => .cl) n)).2 |>
+          (fun r => match r, f with | .ok _ x, .clo k => .ok k x | r, _ => r)
+      else .notLoaded
+    | some (.fn _ _), none => .notLoaded
+    | _, _ => .badTarget
+  | .read i => (kStep s (.read i)).2
+  | .runCode c p sn fr fl => (kStep { s with old := [], cur := none } (.runCode c p sn fr fl)).2
+  | v => (kStep { s with old := [] } v).2
+
+/-! #### The variant the property forbids: every function object remembers the loaded code (and
+with it the `Globals` array) of its first call, and nothing invalidates that -/
+
+structure KCSt where
+  st : KSt := {}
+  /-- per kept object: the load number whose array the function object remembers -/
+  bound : List (Option Nat) := []
+deriving DecidableEq, Repr
+
+def kcArr (s : KSt) (g : Nat) : Option KG := if g = s.old.length then s.cur else s.old[g]?
+
+def kcSetArr (s : KSt) (g : Nat) (a : KG) : KSt :=
+  if g = s.old.length then { s with cur := some a } else { s with old := s.old.set g a }
+
+def kcCallObj (s : KCSt) (i : Nat) (n : Int) : KCSt × KRes :=
+  match s.st.kept[i]? with
+  | some (.fn c f) =>
+    match (s.bound[i]?).join with
+    | some g => match kcArr s.st g with
+      | some a => ({ s with st := kcSetArr s.st g (kApply f n a).1 }, (kApply f n a).2)
+      | none => (s, .badTarget)
+    | none =>
+      let r := kCallFn s.st c f n
+      ({ st := r.1, bound := if r.2 = .notLoaded then s.bound else s.bound.set i (some s.st.old.length) }, r.2)
+  | _ => (s, .badTarget)
+
+def kcPad (s : KCSt) : KCSt := { s with bound := s.bound ++ List.replicate (s.st.kept.length - s.bound.length) none }
+
+def kcStep (s : KCSt) : KInv → KCSt × KRes
+  | .runCode c p sn fr fl =>
+    let s1 : KCSt := kcPad { s with st := kLoad s.st c p }
+    let r := match fr with
+      | some (i, n) => kcCallObj s1 i n
+      | none => (s1, .ok 0 0)
+    let f := kFinish fl sn (r.1.st, r.2)
+    ({ r.1 with st := f.1 }, f.2)
+  | .call i n => kcCallObj s i n
+  | v => let r := kStep s.st v; (kcPad { s with st := r.1 }, r.2)
+
+def kcRunFrom (s : KCSt) : List KInv → List KRes
+  | [] => []
+  | v :: rest => (kcStep s v).2 :: kcRunFrom (kcStep s v).1 rest
+
+
 end Risor.C07
